@@ -14,38 +14,44 @@ THEOREM_MODULES = ["GuppyVerif.Props.C24"]
 DRIVER = "C24"
 RULE = (
     "generated Guppy programs: context (decorator kwargs unitary/control/dagger/power, or a `with` block with a "
-    "modifier list incl. repeated daggers) x body of expression statements / assignments / if / while whose "
-    "expressions are calls to declared callees of every flag set (global) or Callable parameters (local), with "
-    "argument mixes qubit / qubit array / subscripted qubit / classical / nested call / tuple of calls, barrier and "
-    "state_result; positions: statement, nested argument (before and after a qubit argument), if / while "
-    "condition, assigned value.  thorough: the full grid 2 kinds x 8 context flags x 8 callee flags x 7 argument "
-    "mixes x 6 positions plus random deeper programs.  non-trivial = some call passes a qubit to a callee lacking a "
-    "required flag (the flag-subset oracle says reject for a call reason)."
+    "modifier list incl. repeated daggers) x body of expression statements / assignments / if / while / nested `with` "
+    "blocks (any depth) whose expressions are calls to declared callees of every flag set (global) or Callable "
+    "parameters (local), with argument mixes qubit / qubit array / subscripted qubit / classical / nested call / tuple "
+    "of calls, barrier and state_result; positions: statement, nested argument (before and after a qubit argument), "
+    "if / while condition, assigned value, and all of these inside nested with blocks.  thorough: the full grid 23 "
+    "contexts x 8 callee flags x 7 argument mixes x 6 positions, the nested grid 23 contexts x 4 inner modifier lists "
+    "x 8 callee flags x 4 positions, plus random deeper programs.  non-trivial = some call passes a qubit to a callee "
+    "lacking a flag required at its position (the flag-subset oracle says reject for a call reason)."
 )
 ASSUMPTIONS = [
     "the abstract form handed to the Lean model (flags of each callee, qubit-ness and subscript-ness of each place) "
     "is what the real type checker derives for the printed program; checked indirectly by the verdict comparison",
-    "which of several diagnostics is reported first depends on basic-block numbering (not modelled): when the model "
-    "predicts several distinct diagnostics the real one must be among them; with one predicted it must be equal",
+    "which of several diagnostics is reported first depends on basic-block numbering and checking order (not modelled): "
+    "when the model predicts several distinct diagnostics the real one must be among them; with one predicted it must be equal",
+    "code made unreachable by constant conditions is dropped before any check (generated conditions are never literals)",
 ]
 UNMODELLED = [
-    "nested `with` blocks / `with` inside a flagged function (outer flags reach the inner body only through the shared "
-    "statement nodes; cfg/builder.py FIXME) ",
     "TensorCall, comptime calls, generic callees, for-loops and comprehensions (loop_in_ast treats For like While)",
+    "calls inside modifier arguments (`power(f(q))`): the enclosing block's visitor only reaches the raw, unchecked expression",
+    "`control(qs[i])` on a subscripted qubit: crashes the linearity checker with AssertionError (subscript.setitem_call is None) "
+    "- a C02 matter, reported in notes/C24.md",
     "order in which several diagnostics are found (basic-block numbering)",
     "linearity/type errors raised before the unitary check (generated programs are otherwise well-typed)",
+    "barrier/state_result arguments are opaque to the checker: `barrier(qs[0])` under dagger is accepted (modelled as the code does)",
 ]
 MANIFEST = {
-    "level_text": "Lean theorem `rejected_iff` (all context kinds, all 8 flag sets, all statement/expression trees by structural "
-    "induction): the modelled unitary check rejects a block iff a call anywhere in it (statement, nested argument at any "
-    "depth, if/while condition) passes a qubit-containing argument to a callee lacking a required flag (barrier/state_result "
-    "opaque), or under dagger a loop / assignment / subscripted place occurs; plus pre_sound, accept_kind_irrelevant, "
-    "parseKwargs_has, metadata_roundtrip, missing_has.  The hand-written model is tied to /repo by running generated Guppy "
-    "programs through the real check() and comparing verdict and diagnostic (class + flags/thing) with the model and with an "
-    "independent flag-subset oracle; `unitary` metadata is read from lowered FuncDefn nodes.",
-    "level_note": "Model is of the repaired checker (fix 0c2f018 for D7). Trusted: Lean kernel, the statement in Spec/C24.lean, "
-    "the printer from abstract programs to Guppy source, sampling of the correspondence (thorough: exhaustive flag grid). "
-    "Nested with-blocks, TensorCall and the order of multiple diagnostics are not modelled.",
+    "level_text": "Lean theorem `rejected_iff` (all context kinds, all 8 flag sets, all statement/expression trees incl. nested with "
+    "blocks, by structural induction): the modelled unitary check rejects a block iff some expression position anywhere in it "
+    "(statement, assigned value, if/while condition, control argument; at any depth) contains a call (at any argument depth) "
+    "passing a qubit-containing argument to a callee lacking a flag required at that position (context flags plus those of "
+    "every enclosing with block; barrier/state_result opaque), or where dagger is required a loop / assignment / subscripted "
+    "place occurs; plus nested_with_iff, pre_sound, accept_kind_irrelevant, parseKwargs_has, metadata_roundtrip, missing_has.  "
+    "The hand-written model is tied to /repo by running generated Guppy programs through the real check() and comparing verdict "
+    "and diagnostic (class + flags/thing) with the model and with an independent flag-subset oracle; `unitary` metadata is read "
+    "from lowered FuncDefn nodes (function and with-block functions).",
+    "level_note": "Model is of the repaired checker (fixes 0c2f018 for D7 and 5066299 for nested blocks). Trusted: Lean kernel, the "
+    "statement in Spec/C24.lean, the printer from abstract programs to Guppy source, sampling of the correspondence (thorough: "
+    "exhaustive flag grids). TensorCall, calls inside modifier arguments and the order of multiple diagnostics are not modelled.",
     "technique": "Lean 4 proof over a hand-written model + differential correspondence through real check()/lowering",
     "design_ref": "DESIGN.md §5 C24",
     "ready": True,
@@ -54,6 +60,8 @@ MANIFEST = {
 C, D, P = 1, 2, 4
 QPOOL = 6
 ARRN = 4
+KPOOL = 5
+KSUB = 3
 
 # ------------------------------------------------------------------ abstract programs
 # expr: ("l",) | ("p", q, s) | ("pa",) whole qubit array | ("c", gflags, [args], ret, local) |
@@ -92,6 +100,8 @@ class Printer:
         self.globals_: dict[str, str] = {}
         self.locals_: dict[str, str] = {}
         self.nassign = 0
+        self.nctrl = 0
+        self.nsub = 0
 
     def expr(self, e, st):
         t = e[0]
@@ -166,6 +176,23 @@ class Printer:
             elif s[0] == "w":
                 out.append(f"{pad}while {self.expr(s[1], self.fresh())}:")
                 out += self.stmts(s[2], ind + 1) or [pad + "    pass"]
+            elif s[0] == "wb":
+                items = []
+                for j, m in enumerate(s[1]):
+                    if m == "d":
+                        items.append("dagger")
+                    elif m == "p":
+                        items.append("power(n)")
+                    elif s[2] and "c" in s[1] and j == s[1].index("c"):
+                        self.nsub += 1
+                        assert self.nsub <= KSUB
+                        items.append(f"control(ks[{self.nsub - 1}])")
+                    else:
+                        self.nctrl += 1
+                        assert self.nctrl <= KPOOL
+                        items.append(f"control(k{self.nctrl - 1})")
+                out.append(f"{pad}with {', '.join(items)}:")
+                out += self.stmts(s[3], ind + 1) or [pad + "    pass"]
             else:
                 raise AssertionError(s)
         return out
@@ -174,7 +201,7 @@ class Printer:
         body = self.stmts(prog["body"], 2 if prog["kind"] == "with" else 1)
         params = [f"q{i}: qubit" for i in range(QPOOL)] + [
             f"qs: array[qubit, {ARRN}]", "b: bool", "xs: array[bool, 2]", "n: nat", "c0: qubit", "c1: qubit",
-        ] + [f"{k}: {v}" for k, v in sorted(self.locals_.items())]
+        ] + [f"k{i}: qubit" for i in range(KPOOL)] + [f"ks: array[qubit, {KSUB}]"] + [f"{k}: {v}" for k, v in sorted(self.locals_.items())]
         src = "".join(self.globals_[k] for k in sorted(self.globals_))
         if prog["kind"] == "fn":
             u, c, d, p = prog["kw"]
@@ -226,9 +253,17 @@ def sx_block(b):
             out.append(f"(a {sx_expr(s[1])})")
         elif s[0] == "i":
             out.append(f"(i {sx_expr(s[1])} ({sx_block(s[2])}) ({sx_block(s[3])}))")
-        else:
+        elif s[0] == "w":
             out.append(f"(w {sx_expr(s[1])} ({sx_block(s[2])}))")
+        else:
+            first = s[1].index("c") if "c" in s[1] else -1
+            cargs = " ".join(f"(p 1 {int(bool(s[2]) and j == first)})" for j, m in enumerate(s[1]) if m == "c")
+            out.append(f"(wb {flags_of_mods(s[1])} ({cargs}) ({sx_block(s[3])}))")
     return " ".join(out)
+
+
+def flags_of_mods(ms):
+    return (C if "c" in ms else 0) | (P if "p" in ms else 0) | (D if sum(1 for m in ms if m == "d") % 2 else 0)
 
 
 def ctx_line(prog):
@@ -259,43 +294,47 @@ def _letters(g):
 
 
 def oracle(prog):
-    """the property's literal reading: (rejected?, reasons) scanning every call anywhere"""
-    req = oracle_flags(prog)
+    """the property's literal reading: (rejected?, reasons) scanning every call anywhere; the flags required at a
+    position are those of the context plus those of every enclosing nested `with`"""
     reasons = set()
 
     def qarg(a):
         return a[0] == "pa" or (a[0] == "p" and a[1] == 1)
 
-    def ex(e):
+    def ex(e, req):
         t = e[0]
         if t == "c":
             if any(qarg(a) for a in e[2]) and not req <= _letters(e[1]):
                 reasons.add("call")
             for a in e[2]:
-                ex(a)
+                ex(a, req)
         elif t == "t":
             for a in e[1]:
-                ex(a)
+                ex(a, req)
         elif t == "p" and e[2] and "D" in req:
             reasons.add("subscript")
         # "x": barrier / state_result excepted
 
-    def bl(b):
+    def bl(b, req):
         for s in b:
             if s[0] == "e":
-                ex(s[1])
+                ex(s[1], req)
             elif s[0] == "a":
                 if "D" in req:
                     reasons.add("assign")
-                ex(s[1])
+                ex(s[1], req)
             elif s[0] == "i":
-                ex(s[1]); bl(s[2]); bl(s[3])
-            else:
+                ex(s[1], req); bl(s[2], req); bl(s[3], req)
+            elif s[0] == "w":
                 if "D" in req:
                     reasons.add("loop")
-                ex(s[1]); bl(s[2])
+                ex(s[1], req); bl(s[2], req)
+            else:
+                if s[2] and "c" in s[1] and "D" in req:
+                    reasons.add("subscript")  # control(ks[i]) where dagger is required
+                bl(s[3], req | _letters(flags_of_mods(s[1])))
 
-    bl(prog["body"])
+    bl(prog["body"], oracle_flags(prog))
     return (bool(reasons), reasons)
 
 
@@ -349,16 +388,30 @@ def real(prog, want_meta=False):
 
 
 def read_meta(g, kind):
+    """('unitary' metadata of `test`, sorted metadata of all with-block functions)"""
     import hugr.ops as ops
 
-    vals = []
+    test, withs = [], []
     for n in g.hugr:
         op = g.hugr[n].op
         if isinstance(op, ops.FuncDefn):
-            name = op.f_name
-            if (kind == "fn" and name == "test") or (kind == "with" and name.startswith("__WithBlock__")):
-                vals.append(g.hugr[n].metadata.get("unitary"))
-    return vals
+            if op.f_name == "test":
+                test.append(g.hugr[n].metadata.get("unitary"))
+            elif op.f_name.startswith("__WithBlock__"):
+                withs.append(g.hugr[n].metadata.get("unitary"))
+    return [test, sorted(withs, key=str)]
+
+
+def nested_own_flags(b):
+    out = []
+    for s in b:
+        if s[0] == "wb":
+            out += [flags_of_mods(s[1])] + nested_own_flags(s[3])
+        elif s[0] == "i":
+            out += nested_own_flags(s[2]) + nested_own_flags(s[3])
+        elif s[0] == "w":
+            out += nested_own_flags(s[2])
+    return out
 
 
 # ------------------------------------------------------------------ generators
@@ -415,6 +468,17 @@ def grid():
                 for pos in POSITIONS:
                     p = dict(cx)
                     p["body"] = place_call(pos, call(g, mix), 7)
+                    yield p
+
+
+def nested_grid():
+    """outer context x inner modifier list x callee flags x position, one qubit argument"""
+    for cx in contexts():
+        for mods in (["d"], ["c"], ["p"], ["c", "p"]):
+            for g in range(8):
+                for pos in ("stmt", "if", "nested2", "while"):
+                    p = dict(cx)
+                    p["body"] = [("wb", mods, 0, place_call(pos, call(g, [Q]), 7))]
                     yield p
 
 
@@ -477,7 +541,10 @@ def rand_stmt(rng, depth, req_hint):
         return ("e", e)
     if r < 0.62:
         return ("a", rand_expr(rng, 2, bud))
-    if r < 0.85:
+    if r < 0.74:
+        mods = rng.choice([["d"], ["c"], ["p"], ["c", "p"], ["d", "c"], ["p", "d"], ["d", "d"], ["c", "c"], ["d", "p", "c"]])
+        return ("wb", mods, 0, rand_block(rng, depth - 1, req_hint | flags_of_mods(mods), 2))
+    if r < 0.9:
         return ("i", rand_cond(rng, bud), rand_block(rng, depth - 1, req_hint, 2), rand_block(rng, depth - 1, req_hint, 1) if rng.random() < 0.5 else [])
     return ("w", rand_cond(rng, bud), rand_block(rng, depth - 1, req_hint, 2))
 
@@ -516,8 +583,10 @@ def bias_flags(prog, body, rng):
                 out.append((s[0], ex(s[1], ab)))
             elif s[0] == "i":
                 out.append(("i", ex(s[1], ab), bl(s[2]), bl(s[3])))
-            else:
+            elif s[0] == "w":
                 out.append(("w", ex(s[1], ab), bl(s[2])))
+            else:
+                out.append(("wb", s[1], s[2], bl(s[3])))
         return out
 
     return bl(body)
@@ -555,8 +624,27 @@ def strip_dagger_hostile(body):
             out.append(("e", call(7, [ex(s[1])], "n")))
         elif s[0] == "i":
             out.append(("i", ex(s[1]), strip_dagger_hostile(s[2]), strip_dagger_hostile(s[3])))
-        else:
+        elif s[0] == "w":
             out.append(("i", ex(s[1]), strip_dagger_hostile(s[2]), []))
+        else:
+            out.append(("wb", s[1], 0, strip_dagger_hostile(s[3])))
+    return out
+
+
+def has_nested(b):
+    return any(s[0] == "wb" or (s[0] == "i" and (has_nested(s[2]) or has_nested(s[3]))) or
+               (s[0] == "w" and has_nested(s[2])) for s in b)
+
+
+def nested_letters(b):
+    out = set()
+    for s in b:
+        if s[0] == "wb":
+            out |= _letters(flags_of_mods(s[1])) | nested_letters(s[3])
+        elif s[0] == "i":
+            out |= nested_letters(s[2]) | nested_letters(s[3])
+        elif s[0] == "w":
+            out |= nested_letters(s[2])
     return out
 
 
@@ -594,16 +682,17 @@ def cases(ctx):
         progs.append(_norm(ctx.replay_in["replay"]["program"]))
     rng = ctx.rng
     g = list(grid())
+    ng = list(nested_grid())
     if ctx.quick:
-        progs += rng.sample(g, 260)
-        nrand = 240
+        progs += rng.sample(g, 200) + rng.sample(ng, 80)
+        nrand = 220
     else:
-        progs += g
-        nrand = 14000
+        progs += g + ng
+        nrand = 12000
         ctx.extra["exhaustive"] = True
         ctx.extra["exhaustive_note"] = (
             f"full grid: {len(contexts())} contexts (10 decorator forms incl. unitary=True, 13 modifier lists) x 8 callee "
-            f"flag sets x {len(MIXES)} argument mixes x {len(POSITIONS)} positions = {len(g)} programs"
+            f"flag sets x {len(MIXES)} argument mixes x {len(POSITIONS)} positions = {len(g)} programs; nested grid: the same contexts x 4 inner modifier lists x 8 callee flag sets x 4 positions = {len(ng)} programs"
         )
     n = 0
     while n < nrand:
@@ -649,7 +738,7 @@ def tie(ctx):
         elif rej:
             # class of the diagnostic must be one the oracle expects
             cls = r.split(":")[0]
-            if "D" in req and reasons & {"loop", "assign"}:
+            if "D" in req and reasons & {"loop", "assign"} and not has_nested(p["body"]):
                 ok_cls = cls in ("loop", "assign") and cls in reasons
             else:
                 ok_cls = cls in reasons
@@ -658,7 +747,7 @@ def tie(ctx):
             if cls == "call":
                 # the reported flags must be required flags
                 rep = _letters(int(r.split(":")[1]))
-                if not rep or not rep <= req:
+                if not rep or not rep <= (req | nested_letters(p["body"])):
                     ctx.violation(key, f"UnitaryCallError reports flags {sorted(rep)} not all required {sorted(req)}:\n{src}", replay)
         # --- model vs real
         want = sum(bit for k, bit in (("C", C), ("D", D), ("P", P)) if k in req)
@@ -675,11 +764,14 @@ def tie(ctx):
             ctx.broke(f"correspondence Model/Unitary.lean vs real check(): model={mv} real={r} on `{line}`")
         if want_meta:
             nmeta += 1
-            if meta != [want]:
-                ctx.violation("meta:" + key, f"'unitary' metadata on the lowered FuncDefn is {meta}, expected [{want}]:\n{src}",
-                              dict(replay, meta=meta))
-            if meta != [int(fv)]:
-                ctx.broke(f"metadata {meta} != model flags value {fv}")
+            nested = nested_own_flags(p["body"])
+            exp_meta = [[want], sorted(nested)] if p["kind"] == "fn" else [[0], sorted([want] + nested)]
+            if meta != exp_meta:
+                ctx.violation("meta:" + key, f"'unitary' metadata on the lowered FuncDefns is {meta}, expected {exp_meta} "
+                              f"([test], [with-block functions]):\n{src}", dict(replay, meta=meta))
+            mod_meta = [[int(fv)], sorted(nested)] if p["kind"] == "fn" else [[0], sorted([int(fv)] + nested)]
+            if meta != mod_meta:
+                ctx.broke(f"metadata {meta} != model flags value {mod_meta}")
     ctx.extra["metadata_checked_programs"] = nmeta
 
 
